@@ -41,9 +41,36 @@ class Late:
 '''
 
 
+def _forward_models():
+    """Classes whose annotations do not resolve in their module: they need the serializer's globalns (FwdOuter) or fail (FwdOuter2)."""
+    from dataclasses import dataclass, field
+    from typing import Optional
+
+    @dataclass
+    class FwdInner:
+        x: Optional[str] = field(default=None, metadata={"type": "Attribute"})
+
+    @dataclass
+    class FwdOuter:
+        inner: Optional["FwdInner"] = field(default=None, metadata={"type": "Element"})
+
+    @dataclass
+    class FwdOuter2:
+        inner: Optional["FwdInner"] = field(default=None, metadata={"type": "Element"})
+
+    return FwdOuter, FwdOuter2, FwdInner
+
+
+FWD_OUTER, FWD_OUTER2, FWD_INNER = _forward_models()
+XSI = 'xmlns:xsi="http://www.w3.org/2001/XMLSchema-instance"'
+DOC_HOLDER_X = f'<holderx xmlns="urn:t" {XSI}><b xsi:type="special2"><v>a</v><x>1</x></b></holderx>'
+DOC_HOLDER_Y = f'<holdery xmlns="urn:t" {XSI}><b xsi:type="special2"><v>a</v><y>why</y></b></holdery>'
+
+
 class Shared:
     def __init__(self):
         self.ctx = XmlContext()
+        self.gserializer = XmlSerializer(context=self.ctx, config=SerializerConfig(xml_declaration=False, globalns={"FwdInner": FWD_INNER}), writer=XmlEventWriter)
         self.parser = XmlParser(context=self.ctx, handler=XmlEventHandler)
         self.lparser = XmlParser(context=self.ctx, handler=LxmlEventHandler)
         self.serializer = XmlSerializer(context=self.ctx, config=SerializerConfig(xml_declaration=False), writer=XmlEventWriter)
@@ -54,7 +81,7 @@ class Shared:
 
     def roots(self):
         return {"ctx": self.ctx, "parser": self.parser, "lparser": self.lparser, "serializer": self.serializer, "json_parser": self.json_parser,
-                "json_serializer": self.json_serializer, "strict": self.strict, "modules": tuple(self.modules)}
+                "json_serializer": self.json_serializer, "strict": self.strict, "gserializer": self.gserializer, "modules": tuple(self.modules)}
 
     def close(self):
         for m in self.modules:
@@ -151,6 +178,17 @@ OPS = collections.OrderedDict([
     ("parse_union_badcount_warns", lambda s: s.parser.from_string(DOC_UNION_BADCOUNT, M.UnionDoc)),
     ("serialize_anybox_ratio", lambda s: s.serializer.render(M.AnyBox(value=M.Ratio(0.5)))),
     ("serialize_ratiobox", lambda s: s.serializer.render(M.RatioBox(r=M.Ratio(0.5)))),
+    # a serializer with its own globalns next to one without, on classes whose annotations need it
+    ("serialize_fwd_with_globalns", lambda s: s.gserializer.render(FWD_OUTER(inner=FWD_INNER(x="q")))),
+    ("serialize_fwd2_without_globalns_fails", lambda s: s.serializer.render(FWD_OUTER2(inner=FWD_INNER(x="q")))),
+    # one xsi:type name in two unrelated hierarchies
+    ("parse_holder_x_special2", lambda s: s.parser.from_string(DOC_HOLDER_X, M.HolderX)),
+    ("parse_holder_y_special2", lambda s: s.parser.from_string(DOC_HOLDER_Y, M.HolderY)),
+    # strings that select different choices of one compound field
+    ("json_poly_date", lambda s: s.json_parser.from_string('{"v": ["2020-01-02"]}', M.Poly)),
+    ("json_poly_datetime", lambda s: s.json_parser.from_string('{"v": ["2020-01-02T03:04:05"]}', M.Poly)),
+    ("json_poly_decimal", lambda s: s.json_parser.from_string('{"v": ["1.50"]}', M.Poly)),
+    ("json_poly_bool", lambda s: s.json_parser.from_string('{"v": ["true"]}', M.Poly)),
 ])
 OP_NAMES = list(OPS)
 
